@@ -345,4 +345,114 @@ example : Constraint.NumVal.lt (Constraint.smallestNonzero .float64) (Constraint
 set_option exponentiation.threshold 2100 in
 example : Constraint.NumVal.lt (Constraint.max .uint64) (Constraint.max .float32) = true := by decide
 
+/-! ## 6. error messages (`errors.go` of every package) -/
+section ErrMsg
+open U.ErrMsg
+
+/-- The error of an over-long input is a function of the two lengths only: two inputs of the same length get
+the same message, whatever their bytes (C18's "the message does not reproduce the input", in the model). -/
+theorem errmsg_too_long_ignores_content (p : Pkg) (fn s t : Bytes) (max : Nat) (h : s.length = t.length) :
+    tooLongMessage p fn s max = tooLongMessage p fn t max := by
+  unfold tooLongMessage; rw [h]
+
+/-- … and it is exactly `<pkg>.<Func>: input too long: <len> > <max>`. -/
+theorem errmsg_too_long_text (p : Pkg) (fn s : Bytes) (max : Nat) :
+    tooLongMessage p fn s max = p.name ++ 46 :: fn ++ sep ++ tooLongText s.length max := by
+  simp [tooLongMessage, message]
+
+/-- … and ends with the text of the wrapped error, or with the package's fallback text when there is none -/
+theorem errmsg_suffix (p : Pkg) (fn input : Bytes) (e : Option Bytes) :
+    ∃ front, message p fn input e = front ++ (match e with | some t => t | none => p.fallback) := by
+  cases input with
+  | nil => exact ⟨p.name ++ 46 :: fn ++ sep, by cases e <;> simp [message]⟩
+  | cons c s =>
+    exact ⟨p.name ++ 46 :: fn ++ sep ++ p.lead ++ quote (c :: s) ++ sep,
+      by cases e <;> simp [message]⟩
+
+/-- an empty input is never quoted; a non-empty one appears as `"…"` between the function name and the cause -/
+theorem errmsg_empty_input (p : Pkg) (fn : Bytes) (e : Option Bytes) :
+    message p fn [] e = p.name ++ 46 :: fn ++ sep ++ (match e with | some t => t | none => p.fallback) := by
+  cases e <;> simp [message]
+
+theorem errmsg_quoted_input (p : Pkg) (fn : Bytes) (c : Nat) (s : Bytes) (e : Option Bytes) :
+    message p fn (c :: s) e =
+      p.name ++ 46 :: fn ++ sep ++ p.lead ++ quote (c :: s) ++ sep ++ (match e with | some t => t | none => p.fallback) := by
+  cases e <;> simp [message]
+
+/-- The same through `UnmarshalText`, which wraps the parser's error: the whole text is
+`<pkg>.<Type>.UnmarshalText: <pkg>.<Func>: input too long: <len> > <max>` and depends on the input's length only. -/
+theorem errmsg_unmarshalText_too_long (p : Pkg) (fn s t : Bytes) (max : Nat) (h : s.length = t.length) :
+    unmarshalTextTooLong p fn s max = unmarshalTextTooLong p fn t max ∧
+    unmarshalTextTooLong p fn s max =
+      unmarshalTextWrap p (p.name ++ 46 :: fn ++ sep ++ tooLongText s.length max) := by
+  unfold unmarshalTextTooLong
+  rw [errmsg_too_long_ignores_content p fn s t max h, errmsg_too_long_text, h]
+  exact ⟨rfl, rfl⟩
+
+/-- every message starts with `<pkg>.<Func>: ` -/
+theorem errmsg_prefix (p : Pkg) (fn input : Bytes) (e : Option Bytes) :
+    ∃ rest, message p fn input e = p.name ++ 46 :: fn ++ sep ++ rest := by
+  cases input with
+  | nil => exact ⟨_, errmsg_empty_input p fn e⟩
+  | cons c s =>
+    cases e with
+    | none => exact ⟨p.lead ++ quote (c :: s) ++ sep ++ p.fallback, by simp [message]⟩
+    | some t => exact ⟨p.lead ++ quote (c :: s) ++ sep ++ t, by simp [message]⟩
+
+private theorem hexDigit_printable (n : Nat) (h : n < 16) : 32 ≤ hexDigit n ∧ hexDigit n ≤ 126 := by
+  unfold hexDigit; split <;> omega
+
+private theorem quoteByte_printable (c : Nat) (hc : c < 128) : ∀ x ∈ quoteByte c, 32 ≤ x ∧ x ≤ 126 := by
+  intro x hx
+  unfold quoteByte at hx
+  have h1 := hexDigit_printable (c / 16) (by omega)
+  have h2 := hexDigit_printable (c % 16) (by omega)
+  repeat' split at hx
+  all_goals (simp [hex2] at hx; omega)
+
+/-- Quoting an ASCII input yields printable ASCII only: no control byte of a rejected input reaches the message. -/
+theorem quote_printable (s : Bytes) (h : quoteModelled s = true) : ∀ x ∈ quote s, 32 ≤ x ∧ x ≤ 126 := by
+  have body : ∀ s : Bytes, quoteModelled s = true → ∀ x ∈ quoteBody s, 32 ≤ x ∧ x ≤ 126 := by
+    intro s
+    induction s with
+    | nil => intro _ x hx; simp [quoteBody] at hx
+    | cons c s ih =>
+      intro h x hx
+      simp [quoteModelled] at h
+      simp [quoteBody] at hx
+      rcases hx with hx | hx
+      · exact quoteByte_printable c h.1 x hx
+      · exact ih (by simpa [quoteModelled] using h.2) x hx
+  intro x hx
+  simp [quote] at hx
+  rcases hx with hx | hx | hx
+  · omega
+  · exact body s h x hx
+  · omega
+
+/-- a quoted byte is one byte, a two-byte escape or `\xhh` -/
+theorem quoteByte_length (c : Nat) : (quoteByte c).length = 1 ∨ (quoteByte c).length = 2 ∨ (quoteByte c).length = 4 := by
+  unfold quoteByte; repeat' split
+  all_goals simp [hex2]
+
+/-- the quoted text is at least as long as the input plus the two quotation marks and at most four times as long -/
+theorem quote_length (s : Bytes) : s.length + 2 ≤ (quote s).length ∧ (quote s).length ≤ 4 * s.length + 2 := by
+  have body : ∀ s : Bytes, s.length ≤ (quoteBody s).length ∧ (quoteBody s).length ≤ 4 * s.length := by
+    intro s
+    induction s with
+    | nil => simp [quoteBody]
+    | cons c s ih =>
+      have := quoteByte_length c
+      simp [quoteBody]; omega
+  have := body s
+  simp [quote]; omega
+
+example : quote [97, 34, 10, 1] = [34, 97, 92, 34, 92, 110, 92, 120, 48, 49, 34] := by decide
+example : message .size [80] [49, 32, 120] none =
+    [115, 105, 122, 101, 46, 80, 58, 32, 112, 97, 114, 115, 105, 110, 103, 32, 34, 49, 32, 120, 34, 58, 32,
+     117, 110, 97, 98, 108, 101, 32, 116, 111, 32, 112, 97, 114, 115, 101] := by decide
+example : tooLongMessage .date [80] (List.replicate 11 120) 10 = tooLongMessage .date [80] (List.replicate 11 0) 10 := rfl
+
+end ErrMsg
+
 end U.Props.EXTRA
